@@ -77,7 +77,8 @@ fn gen_numeral(r: &mut Rng) -> String {
         _ => (String::new(), 0),
     };
     if !outside_window(&int_digits, &frac, exp) {
-        return format!("{}{}", neg, int_digits);
+        // (the window where serde_json's float conversion decides is not modelled: another numeral instead)
+        return format!("{}{}e-3", neg, r.next() % 1000);
     }
     format!("{}{}{}{}", neg, int_digits, if frac.is_empty() { String::new() } else { format!(".{}", frac) }, exp_text)
 }
